@@ -560,6 +560,57 @@ Definition sk_tucker_gen (N sweeps : nat) (modes : list nat) : cmd := seq [
     Alloc 23 4 ]);
   ListNew 25 [23; 24] ].
 
+(* ================================================================== programs with choices (extracted skeletons)
+   pcmd = cmd + nondeterministic choice (an `if` whose test is data dependent), bounded loops and calls whose bodies
+   contain choices.  A pcmd DENOTES the list of its paths (every resolution of every choice, independently per loop
+   iteration); `paexec` runs the abstract interpreter on all paths at once, sharing common prefixes;
+   `psafe_with` = all paths accepted (sound w.r.t. `paths`: Proofs/EffectsProofsPaths.v). *)
+Inductive pcmd :=
+| PPrim (c : cmd)
+| PSeq (a b : pcmd)
+| PChoice (a b : pcmd)
+| PRepeat (n : nat) (b : pcmd)
+| PCall (x : var) (body : pcmd) (args : list var) (ret : var).
+
+Fixpoint pseq (ps : list pcmd) : pcmd := match ps with [] => PPrim Skip | p :: t => PSeq p (pseq t) end.
+
+Definition seq_paths (la lb : list cmd) : list cmd := flat_map (fun a => map (fun b => Seq a b) lb) la.
+Fixpoint rep_paths (n : nat) (lb : list cmd) : list cmd :=
+  match n with O => [Skip] | S m => seq_paths lb (rep_paths m lb) end.
+Fixpoint paths (p : pcmd) : list cmd :=
+  match p with
+  | PPrim c => [c]
+  | PSeq a b => seq_paths (paths a) (paths b)
+  | PChoice a b => paths a ++ paths b
+  | PRepeat n b => rep_paths n (paths b)
+  | PCall x body args ret => map (fun c => Call x c args ret) (paths body)
+  end.
+
+(* shared-prefix abstract execution of all paths *)
+Fixpoint obind {A B} (l : list A) (f : A -> option (list B)) : option (list B) :=
+  match l with
+  | [] => Some []
+  | a :: t => match f a, obind t f with Some x, Some y => Some (x ++ y) | _, _ => None end
+  end.
+Fixpoint prep {A} (n : nat) (f : A -> option (list A)) (a : A) : option (list A) :=
+  match n with O => Some [a] | S m => match f a with Some l => obind l (prep m f) | None => None end end.
+Fixpoint paexec (p : pcmd) (s : astate) : option (list astate) :=
+  match p with
+  | PPrim c => match aexec c s with Some s' => Some [s'] | None => None end
+  | PSeq a b => match paexec a s with Some l => obind l (paexec b) | None => None end
+  | PChoice a b => match paexec a s, paexec b s with Some x, Some y => Some (x ++ y) | _, _ => None end
+  | PRepeat n b => prep n (paexec b) s
+  | PCall x body args ret =>
+      let '(e, ah) := s in
+      match paexec body (call_env ANull e args, ah) with
+      | Some l => Some (map (fun s' => (upd e x (fst s' ret), snd s')) l)
+      | None => None
+      end
+  end.
+Definition psafe_with (flags : list bool) (p : pcmd) : bool :=
+  match paexec p (aenv0 flags, []) with Some _ => true | None => false end.
+
+
 (* a concrete caller heap used by the examples: a tensor, a CP initialisation (weights, [A, B, C]) whose
    B is a transposed view, a fixed_modes list and a mask *)
 Definition demo_heap : heap := [
